@@ -143,7 +143,7 @@ row("C28", True, "E-INPUT",
 
 row("C29", True, "E-INPUT",
     EI + " (all ordered type-reference pairs up to a nesting bound x defaults x positions); oracle: spec predicates",
-    "Every ordered pair of type references up to a nesting bound: Type::is_assignable_to vs AreTypesCompatible; the variable-usage rule observed through validation of minimal documents vs IsVariableUsageAllowed (× variable default × location default); interface implementation field types observed through schema validation vs IsValidImplementationFieldType (× object/interface/union subtyping).",
+    "Every ordered pair of type references up to a nesting bound: Type::is_assignable_to vs AreTypesCompatible; the variable-usage rule observed through validation of minimal documents vs IsVariableUsageAllowed (× variable default × location default); interface implementation field types observed through schema validation vs IsValidImplementationFieldType (× object/interface/union subtyping), also for an implementer of two interfaces that define the same field (every triple of references of nesting <= 1).",
     "Crate-private predicates are observed through verdicts of minimal documents in which every other rule holds by construction.")
 
 row("C32", True, "E-INPUT",
